@@ -843,10 +843,15 @@ pub fn gen_framed_words(
             let mut w = [0u8; 10];
             rng.fill(&mut w);
             w[9] = if rng.chance(p_unknown_id, 1000) {
-                loop {
-                    let id = rng.below(255) as u8; // never 0xFF
-                    if crate::words::kind_of_id(id) == Kind::Unknown {
-                        break id;
+                if rng.chance(1, 12) {
+                    // an unknown ID that looks like padding (see the trailing-run adjustment below)
+                    0xFF
+                } else {
+                    loop {
+                        let id = rng.below(255) as u8;
+                        if crate::words::kind_of_id(id) == Kind::Unknown {
+                            break id;
+                        }
                     }
                 }
             } else {
@@ -865,7 +870,13 @@ pub fn gen_framed_words(
             }
         }
         if df != 0 {
-            let pad = if rng.chance(1, 2) { (16 - payload.len() % 16) % 16 } else { rng.below(16) as usize };
+            let mut pad = if rng.chance(1, 2) { (16 - payload.len() % 16) % 16 } else { rng.below(16) as usize };
+            // a last word ending in 0xFF bytes (ID 0xFF) is only distinguishable from padding while the whole
+            // trailing 0xFF run stays below 10 bytes: keep such payloads unambiguous
+            let tail = payload.iter().rev().take_while(|&&b| b == 0xFF).count();
+            if tail > 0 && tail + pad > 9 {
+                pad = 9usize.saturating_sub(tail);
+            }
             // a 10-byte payload followed by exactly 6 bytes that are not zero is fine (0xFF)
             payload.extend(std::iter::repeat(0xFF).take(pad));
         }
